@@ -95,6 +95,7 @@ int __real_ftruncate64(int, off64_t);
 int __real_close(int);
 
 bool c15_ops_heap_fail(size_t n);
+bool c15_ops_vm_fail();
 void* __wrap_malloc(size_t n) {
   if (must_fail(kHeap) || c15_ops_heap_fail(n)) { errno = ENOMEM; return nullptr; }
   void* p = __real_malloc(n);
@@ -112,7 +113,7 @@ void __wrap_free(void* p) {
   __real_free(p);
 }
 void* __wrap_mmap(void* a, size_t n, int prot, int flags, int fd, off_t off) {
-  if (must_fail(kVm)) { errno = ENOMEM; return MAP_FAILED; }
+  if (must_fail(kVm) || c15_ops_vm_fail()) { errno = ENOMEM; return MAP_FAILED; }
   void* p = __real_mmap(a, n, prot, flags, fd, off);
   if (g_track && p != MAP_FAILED) (*g_live_map)[p] = n;
   return p;
@@ -129,17 +130,17 @@ int __wrap_mprotect(void* p, size_t n, int prot) {
   return __real_mprotect(p, n, prot);
 }
 int __wrap_shm_open(const char* name, int fl, mode_t m) {
-  if (must_fail(kVm)) { errno = ENFILE; return -1; }
+  if (must_fail(kVm) || c15_ops_vm_fail()) { errno = ENFILE; return -1; }
   int fd = __real_shm_open(name, fl, m);
   if (g_track && fd >= 0) g_live_fd->insert(fd);
   return fd;
 }
 int __wrap_ftruncate(int fd, off_t n) {
-  if (must_fail(kVm)) { errno = ENOSPC; return -1; }
+  if (must_fail(kVm) || c15_ops_vm_fail()) { errno = ENOSPC; return -1; }
   return __real_ftruncate(fd, n);
 }
 int __wrap_ftruncate64(int fd, off64_t n) {
-  if (must_fail(kVm)) { errno = ENOSPC; return -1; }
+  if (must_fail(kVm) || c15_ops_vm_fail()) { errno = ENOSPC; return -1; }
   return __real_ftruncate64(fd, n);
 }
 // `memfd_create` is called through syscall(): a variadic wrapper that forwards six register arguments (x86-64 / AArch64
@@ -154,7 +155,7 @@ long __wrap_syscall(long n, ...) {
   va_end(ap);
 #ifdef __NR_memfd_create
   if (n == __NR_memfd_create) {
-    if (must_fail(kVm)) { errno = ENFILE; return -1; }
+    if (must_fail(kVm) || c15_ops_vm_fail()) { errno = ENFILE; return -1; }
     long fd = __real_syscall(n, a[0], a[1], a[2], a[3], a[4], a[5]);
     if (g_track && fd >= 0) g_live_fd->insert(int(fd));
     return fd;
@@ -624,6 +625,68 @@ struct CompX86 : HolderWL {
   }
 };
 
+// AArch64 compiler with spills and a call; the host cannot execute the code, so a run that completes with other bytes than the
+// failure-free run (a tolerated register-allocator failure) is NOT judged for equivalence (exec = "a64-unverified" on both sides):
+// crash / sanitizer / leak / error reporting / reuse / fresh are judged as for every other workload.
+static Error prog_compiler_a64(a64::Compiler& cc, EH& eh) {
+  FuncNode* f = cc.add_func(FuncSignature::build<int, int, int>()); CKH();
+  if (!f) return Error::kOutOfMemory;
+  a64::Gp a = cc.new_gp32("a"); CKH();
+  a64::Gp b = cc.new_gp32("b"); CKH();
+  f->set_arg(0, a);
+  f->set_arg(1, b);
+  std::vector<a64::Gp> v;
+  for (int i = 0; i < 40; i++) {
+    v.push_back(cc.new_gp32("v%d", i)); CKH();
+    CK(cc.add(v[i], a, i + 1));
+    CK(cc.eor(v[i], v[i], b));
+  }
+  a64::Gp r = cc.new_gp32("r"); CKH();
+  a64::Gp i = cc.new_gp32("i"); CKH();
+  a64::Mem stk = cc.new_stack(32, 16); CKH();
+  CK(cc.str(v[0], stk));
+  InvokeNode* inv = nullptr;
+  // (a label target makes a64 `invoke` emit `blr <label>`, which the assembler refuses - noted in notes/C15.md; a register is used)
+  a64::Gp tgt = cc.new_gp64("tgt"); CKH();
+  CK(cc.mov(tgt, 0x123456789ABCull));
+  CK(cc.invoke(Out(inv), tgt, FuncSignature::build<int, int, int>()));
+  if (!inv) return Error::kOutOfMemory;
+  inv->set_arg(0, v[0]);
+  inv->set_arg(1, v[1]);
+  inv->set_ret(0, r);
+  Label Lloop = cc.new_label(); CKH();
+  Label Lout = cc.new_label(); CKH();
+  CK(cc.mov(i, 3));
+  CK(cc.bind(Lloop));
+  for (int k = 0; k < 40; k++) CK(cc.add(r, r, v[k]));
+  CK(cc.subs(i, i, 1));
+  CK(cc.b_ne(Lloop));
+  CK(cc.ldr(i, stk));
+  CK(cc.add(r, r, i));
+  CK(cc.cmp(r, 1000));
+  CK(cc.b_gt(Lout));
+  CK(cc.add(r, r, 5));
+  CK(cc.bind(Lout));
+  CK(cc.ret(r));
+  CK(cc.end_func());
+  return Error::kOk;
+}
+
+struct CompA64 : HolderWL {
+  a64::Compiler cc;
+  CompA64() { env.init(Arch::kAArch64); }
+  Error prepare(int attempt) override { return prepare_code(&cc, attempt); }
+  Error body(Out2& o) override {
+    CK(prog_compiler_a64(cc, eh));
+    CK1(cc.finalize());
+    CK(code.flatten());
+    CK(code.resolve_cross_section_fixups());
+    for (Section* s : code.sections()) o.bytes.insert(o.bytes.end(), s->buffer().data(), s->buffer().data() + s->buffer().size());
+    o.exec = "a64-unverified";
+    return Error::kOk;
+  }
+};
+
 // JIT installation: the runtime/allocator is part of the workload (created while armed)
 struct JitWL : Workload {
   uint32_t options;
@@ -808,6 +871,7 @@ struct ArenaHistWL : Workload {
 static Workload* make_workload(const std::string& w) {
   if (w == "arenahist") return new ArenaHistWL();
   if (w == "compcf") return new CompX86(2);
+  if (w == "compa64") return new CompA64();
   if (w == "asm") return new AsmX86(false);
   if (w == "asmbig") return new AsmX86(true);
   if (w == "a64") return new AsmA64();
@@ -866,15 +930,19 @@ static std::string run_fault(const std::vector<std::string>& w) {
     head = "run " + name + " multi " + w[2] + "/" + w[3];
   }
   else {
+    // fault <w> <cls> <k>... [<cls> <k>...]: the class keyword may change inside the list (mixed arena / heap / vm failures)
     if (w.size() < 4) return "bad-op";
-    int cls = w[2] == "arena" ? kArena : w[2] == "heap" ? kHeap : w[2] == "vm" ? kVm : -1;
-    if (cls < 0) return "bad-op";
+    int cls = -1;
     head = "run " + name + " " + w[2] + " ";
-    for (size_t i = 3; i < w.size(); i++) {
+    bool firstk = true;
+    for (size_t i = 2; i < w.size(); i++) {
+      int c2 = w[i] == "arena" ? kArena : w[i] == "heap" ? kHeap : w[i] == "vm" ? kVm : -1;
+      if (c2 >= 0) { cls = c2; if (i > 2) head += "+" + w[i] + ":"; continue; }
       uint64_t k;
-      if (!vh::parse_u64(w[i], k)) return "bad-op";
+      if (cls < 0 || !vh::parse_u64(w[i], k)) return "bad-op";
       g_fail[cls].insert(k);
-      head += (i > 3 ? "," : "") + w[i];
+      head += (firstk || head.back() == ':' ? "" : ",") + w[i];
+      firstk = false;
     }
   }
   g_live_heap->clear(); g_live_map->clear(); g_live_fd->clear();
@@ -957,6 +1025,12 @@ static bool g_op_armed = false, g_op_heap = false;
 static bool ops_arena_pred() {
   if (g_armed) return must_fail(kArena);
   if (!g_op_armed) return false;
+  uint64_t i = g_op_cnt++;
+  return i < 64 && ((g_op_mask >> i) & 1);
+}
+static bool g_op_vm = false;
+extern "C" bool c15_ops_vm_fail() {
+  if (!g_op_armed || !g_op_vm) return false;
   uint64_t i = g_op_cnt++;
   return i < 64 && ((g_op_mask >> i) & 1);
 }
@@ -1294,9 +1368,159 @@ static std::string b_step(const std::vector<std::string>& w) {
   else return "bad-op";
   return ename(e) + " n=" + std::to_string(g_op_cnt) + " | " + b_state();
 }
+// PART 4: BaseCompiler calls with a per-call fault mask (model: lean/AsmjitVerif/Model/FaultCompiler.lean)
+//   c reset | c <mask> reg <0|1 long name> | func <nargs> | invoke <nargs> | emit <k> | endfunc
+//       -> <Error|ok> n=<requests> | N=<node list> CUR=<cursor index> LC=<labels> R=<named per register> | C=<label_entries cap>,<label_nodes size>,<cap>,<virt_regs cap>
+struct CCtx {
+  Environment env;
+  CodeHolder code;
+  x86::Compiler cc;
+  EH eh;
+};
+static std::unique_ptr<CCtx> g_c;
+
+static std::string c_state() {
+  CCtx& c = *g_c;
+  std::string s = "N=";
+  size_t idx = 0, cur = 0;
+  for (BaseNode* n = c.cc.first_node(); n; n = n->next(), idx++) {
+    if (n == c.cc.cursor()) cur = idx;
+    switch (n->type()) {
+      case NodeType::kSection: s += "S"; break;
+      case NodeType::kFunc: s += "F" + std::to_string(n->as<FuncNode>()->label_id()); break;
+      case NodeType::kLabel: s += "L" + std::to_string(n->as<LabelNode>()->label_id()); break;
+      case NodeType::kSentinel: s += "Z"; break;
+      case NodeType::kInvoke: s += "V" + std::to_string(n->as<InvokeNode>()->arg_count()); break;
+      case NodeType::kInst: {
+        InstId id = n->as<InstNode>()->inst_id();
+        s += "I" + std::to_string(id == x86::Inst::kIdNop ? 0 : id == x86::Inst::kIdMov ? 1 : 3);
+        break;
+      }
+      default: s += "?"; break;
+    }
+    s += ",";
+  }
+  s += " CUR=" + std::to_string(cur) + " LC=" + std::to_string(c.code.label_count()) + " R=";
+  for (VirtReg* vr : c.cc.virt_regs()) s += vr->name_size() ? "1" : "0";
+  s += " | C=" + std::to_string(c.code._label_entries.capacity()) + "," + std::to_string(c.cc._label_nodes.size()) + "," +
+       std::to_string(c.cc._label_nodes.capacity()) + "," + std::to_string(c.cc._virt_regs.capacity());
+  return s;
+}
+
+static std::string c_step(const std::vector<std::string>& w) {
+  if (w.size() < 2) return "bad-op";
+  if (w[1] == "reset") {
+    g_c.reset();
+    g_c.reset(new CCtx());
+    CCtx& c = *g_c;
+    c.env.init(Arch::kX64);
+    if (c.code.init(c.env) != Error::kOk) return "init-failed";
+    c.code.set_error_handler(&c.eh);
+    if (c.code.attach(&c.cc) != Error::kOk) return "attach-failed";
+    return "ok n=0 | " + c_state();
+  }
+  if (!g_c || w.size() < 3) return "bad-op";
+  CCtx& c = *g_c;
+  uint64_t mask, u0 = 0;
+  if (!vh::parse_hex(w[1], mask)) return "bad-op";
+  const std::string& op = w[2];
+  auto U = [&](size_t i, uint64_t& v) { return i < w.size() && vh::parse_u64(w[i], v); };
+  c.eh.clear();
+  g_op_mask = mask; g_op_cnt = 0; g_op_heap = false;
+  Error e = Error::kOk;
+  if (op == "reg") {
+    if (!U(3, u0)) return "bad-op";
+    g_op_armed = true;
+    x86::Gp r = u0 ? c.cc.new_gp32("a_rather_long_virtual_register_name_%d", 7) : c.cc.new_gp32("r");
+    g_op_armed = false;
+    e = c.eh.count ? c.eh.first : (r.is_valid() ? Error::kOk : Error::kOutOfMemory);
+  }
+  else if (op == "func" || op == "invoke") {
+    if (!U(3, u0) || u0 > 8) return "bad-op";
+    FuncSignature sig;
+    sig.set_ret_t<int>();
+    for (uint64_t i = 0; i < u0; i++) sig.add_arg_t<int>();
+    g_op_armed = true;
+    if (op == "func") {
+      FuncNode* f = c.cc.add_func(sig);
+      g_op_armed = false;
+      e = c.eh.count ? c.eh.first : (f ? Error::kOk : Error::kOutOfMemory);
+    }
+    else {
+      InvokeNode* inv = nullptr;
+      e = c.cc.invoke(Out(inv), imm(0x123456), sig);
+      g_op_armed = false;
+    }
+  }
+  else if (op == "emit") {
+    if (!U(3, u0)) return "bad-op";
+    g_op_armed = true;
+    if (u0 == 0) e = c.cc.nop();
+    else if (u0 == 1) e = c.cc.mov(x86::eax, 0x11223344);
+    else e = c.cc.add(x86::rax, x86::rcx);
+    g_op_armed = false;
+  }
+  else if (op == "endfunc") {
+    e = c.cc.end_func();
+  }
+  else return "bad-op";
+  return ename(e) + " n=" + std::to_string(g_op_cnt) + " | " + c_state();
+}
+// PART 5: JitAllocator::alloc / release with a per-call fault mask (model: lean/AsmjitVerif/Model/FaultJit.lean on C09's allocator)
+//   j reset <options> | j <mask> alloc <size> | j 0 release <span ordinal>
+//       -> <Error|ok> n=<requests: mmap / memfd_create / ftruncate / malloc of the block record> | blocks=.. allocs=.. used=.. reserved=..
+struct JCtx {
+  std::unique_ptr<JitAllocator> a;
+  std::vector<void*> spans;
+};
+static std::unique_ptr<JCtx> g_j;
+
+static std::string j_state() {
+  JitAllocator::Statistics st = g_j->a->statistics();
+  return "blocks=" + std::to_string(st.block_count()) + " allocs=" + std::to_string(st.allocation_count()) + " used=" +
+         std::to_string(st.used_size()) + " reserved=" + std::to_string(st.reserved_size());
+}
+
+static std::string j_step(const std::vector<std::string>& w) {
+  if (w.size() < 3) return "bad-op";
+  uint64_t u0 = 0, mask = 0;
+  if (w[1] == "reset") {
+    if (!vh::parse_u64(w[2], u0)) return "bad-op";
+    g_j.reset();
+    g_j.reset(new JCtx());
+    JitAllocator::CreateParams p{};
+    p.options = JitAllocatorOptions(uint32_t(u0));
+    p.block_size = 65536;
+    g_j->a.reset(new JitAllocator(&p));
+    return "ok n=0 | " + j_state();
+  }
+  if (!g_j || w.size() < 4 || !vh::parse_hex(w[1], mask) || !vh::parse_u64(w[3], u0)) return "bad-op";
+  g_op_mask = mask; g_op_cnt = 0; g_op_heap = true; g_op_vm = true;
+  Error e = Error::kOk;
+  if (w[2] == "alloc") {
+    JitAllocator::Span span;
+    g_op_armed = true;
+    e = g_j->a->alloc(Out(span), size_t(u0));
+    g_op_armed = false;
+    if (e == Error::kOk) g_j->spans.push_back(span.rx());
+  }
+  else if (w[2] == "release") {
+    if (u0 >= g_j->spans.size() || !g_j->spans[u0]) { g_op_vm = false; return "precond"; }
+    e = g_j->a->release(g_j->spans[u0]);
+    g_j->spans[u0] = nullptr;
+  }
+  else { g_op_vm = false; return "bad-op"; }
+  g_op_vm = false;
+  // which errno-derived error a failed mmap / memfd_create / ftruncate is turned into is not modelled: `fail:<Error>`
+  std::string en = (e != Error::kOk && mask != 0) ? "fail:" + ename(e) : ename(e);
+  return en + " n=" + std::to_string(g_op_cnt) + " | " + j_state();
+}
 // OPS-END
 
+static void on_cpu_timeout(int) { static const char m[] = "CPU-TIMEOUT (900 s of CPU time)\n"; (void)!write(2, m, sizeof(m) - 1); _exit(97); }
+
 int main() {
+  vh::cpu_alarm(900, on_cpu_timeout);   // a verdict of "timeout" is based on CPU time, never on wall-clock time of a loaded machine
   g_live_heap = new std::unordered_set<void*>();
   g_live_map = new std::unordered_map<void*, size_t>();
   g_live_fd = new std::unordered_set<int>();
@@ -1318,6 +1542,8 @@ int main() {
     }
     if (w[0] == "fault" || w[0] == "multi") return run_fault(w);
     if (w[0] == "b") return b_step(w);
+    if (w[0] == "c") return c_step(w);
+    if (w[0] == "j") return j_step(w);
     return ops_step(w);
   });
 }
